@@ -140,7 +140,7 @@ func newRateTotal(c *Combo, zero num.Amount) *RateTotal {
 // Category provides the category total for the matching code.
 func (t *Total) Category(code cbc.Code) *CategoryTotal {
 	for _, ct := range t.Categories {
-		if ct.Code == code {
+		if ct != nil && ct.Code == code {
 			return ct
 		}
 	}
@@ -260,33 +260,41 @@ func (t *Total) Clone() *Total {
 		return nil
 	}
 	nt := new(Total)
-	nt.Categories = make([]*CategoryTotal, len(t.Categories))
-	for i, ct := range t.Categories {
-		nt.Categories[i] = new(CategoryTotal)
-		nt.Categories[i].Code = ct.Code
-		nt.Categories[i].Retained = ct.Retained
-		nt.Categories[i].Amount = ct.Amount
-		nt.Categories[i].amount = ct.amount
+	nt.Categories = make([]*CategoryTotal, 0, len(t.Categories))
+	for _, ct := range t.Categories {
+		if ct == nil {
+			continue // ignore null rows
+		}
+		nct := new(CategoryTotal)
+		nct.Code = ct.Code
+		nct.Retained = ct.Retained
+		nct.Amount = ct.Amount
+		nct.amount = ct.amount
 		if ct.Surcharge != nil {
 			s := *ct.Surcharge
-			nt.Categories[i].Surcharge = &s
+			nct.Surcharge = &s
 		}
-		nt.Categories[i].Rates = make([]*RateTotal, len(ct.Rates))
-		for j, rt := range ct.Rates {
-			nt.Categories[i].Rates[j] = new(RateTotal)
-			nt.Categories[i].Rates[j].Key = rt.Key
-			nt.Categories[i].Rates[j].Country = rt.Country
-			nt.Categories[i].Rates[j].Ext = rt.Ext
-			nt.Categories[i].Rates[j].Base = rt.Base
-			nt.Categories[i].Rates[j].Percent = rt.Percent
-			nt.Categories[i].Rates[j].Amount = rt.Amount
+		nct.Rates = make([]*RateTotal, 0, len(ct.Rates))
+		for _, rt := range ct.Rates {
+			if rt == nil {
+				continue // ignore null rows
+			}
+			nrt := new(RateTotal)
+			nrt.Key = rt.Key
+			nrt.Country = rt.Country
+			nrt.Ext = rt.Ext
+			nrt.Base = rt.Base
+			nrt.Percent = rt.Percent
+			nrt.Amount = rt.Amount
 			if rt.Surcharge != nil {
-				nt.Categories[i].Rates[j].Surcharge = &RateTotalSurcharge{
+				nrt.Surcharge = &RateTotalSurcharge{
 					Percent: rt.Surcharge.Percent,
 					Amount:  rt.Surcharge.Amount,
 				}
 			}
+			nct.Rates = append(nct.Rates, nrt)
 		}
+		nt.Categories = append(nt.Categories, nct)
 	}
 	nt.Sum = t.Sum
 	nt.sum = t.sum
@@ -382,9 +390,34 @@ func (t *Total) Calculate(cur currency.Code, rr cbc.Key) {
 	if t == nil {
 		return
 	}
-	zero := cur.Def().Zero()
+	def := cur.Def()
+	if def == nil {
+		return // unknown currency, nothing to base the calculation on
+	}
+	zero := def.Zero()
+	t.removeNullRows()
 	t.calculateFinalSum(zero, rr)
 	t.round(zero)
+}
+
+// removeNullRows ensures that totals provided from an external source
+// do not contain any null categories or rates.
+func (t *Total) removeNullRows() {
+	cats := t.Categories[:0]
+	for _, ct := range t.Categories {
+		if ct == nil {
+			continue
+		}
+		rates := ct.Rates[:0]
+		for _, rt := range ct.Rates {
+			if rt != nil {
+				rates = append(rates, rt)
+			}
+		}
+		ct.Rates = rates
+		cats = append(cats, ct)
+	}
+	t.Categories = cats
 }
 
 func (t *Total) calculateFinalSum(zero num.Amount, rr cbc.Key) {
